@@ -53,8 +53,13 @@ def report_monitor(run, viol, line, events, mode):
     bad = events[line - 1]
     cfg = tr[1][0].get("cfg", "")
     # the signature names the formula, the mode, the kind of event that exposed it and the shape of the history before it
-    hist = "-".join(e["ev"] + (":" + e["res"] if e.get("ev") in ("VTFinish", "LayerVerify", "Verify") else "")
-                    for e in tr[1][: idx + 1] if e.get("ev") in ("LayerSkip", "VTFinish", "LayerVerify", "Verify"))[-80:]
+    def tag(e):
+        if e["ev"] == "Mount":
+            return "Mount(toc=%s,skip=%s):%s" % (e.get("tl"), "y" if e.get("sk") else "n", e.get("res"))
+        return e["ev"] + (":" + e["res"] if e.get("ev") in ("VTFinish", "LayerVerify", "Verify") else "")
+    hist = "-".join(tag(e) for e in tr[1][: idx + 1] if e.get("ev") in ("LayerSkip", "VTFinish", "LayerVerify", "Verify", "Mount"))[-80:]
+    if tr[1][0].get("fscfg"):
+        hist = "fscfg=" + tr[1][0]["fscfg"] + ":" + hist
     sig = "monitor:%s:%s:%s:%s" % (viol, mode, bad.get("ev"), hist)
     run.violation(sig, "%s false on what the implementation did (%s; %s) at event %d: %s" %
                   (viol, mode, cfg, idx, json.dumps(bad)),
